@@ -8,6 +8,7 @@ from ..r_domains import rule_domains
 from ..r_escape import rule_yield_then_mutate, rule_borrowed_pool
 from ..r_hygiene import rule_hygiene as _rule_hygiene
 from ..r_round8 import rule_pyrrole_pair_threshold as _r8_pairs
+from ..r_round9 import rule_emptied_lists_filtered as _r9_empt
 
 LEVEL = 'other'
 
@@ -26,3 +27,4 @@ def run(ck, repo):
     _rule_hygiene(ck, repo, 'C05.H-dataflow-hygiene', 'C05')
     rule_exocyclic_double(ck, repo, 'C05.D2-exocyclic-double-bond')
     _r8_pairs(ck, repo, 'C05.D6-pyrrole-pairs')
+    _r9_empt(ck, repo, 'C05.D7-emptied-lists-filtered')
